@@ -100,6 +100,9 @@ fn decl_value(out: &str, sel: &str, prop: &str) -> Option<String> {
 }
 
 pub fn run(ctx: &Ctx) {
+    // the watchdog's clock also covers the harness's own oracle work (reference models, DOM enumeration);
+    // the limit is generous so that machine load cannot turn a slow case into a verdict
+    ctx.hang_limit_s.store(600, std::sync::atomic::Ordering::Relaxed);
     // ---- (1) lib / mid / entry matrix ----------------------------------------------------------
     let sub = "forward-matrix";
     let uses: [(&str, &str, &str); 3] = [("ns", "@use \"mid\";", "mid."), ("as", "@use \"mid\" as q;", "q."), ("star", "@use \"mid\" as *;", "")];
